@@ -3,6 +3,7 @@ From MD Require Import Lib.Base Model.Node Model.Dec.Ip Model.Dec.ReLib Model.De
 From MD Require Import Proofs.IpProofs Proofs.UrlSplitProofs Proofs.NetworkProofs Proofs.PathDecProofs Proofs.EscDecProofs Proofs.StrOpsProofs Regex.BacktrackProofs.
 From MD Require Import Regex.LocalityProofs Generated.Regexes.
 From MD Require Import Proofs.RoundTrip Proofs.RoundTrip3.
+From MD Require Import Regex.LocalityProofs Proofs.RoundTrip Proofs.RoundTrip2 Proofs.RoundTrip3 Proofs.RoundTrip4 Proofs.RoundTrip5 Proofs.RoundTrip6.
 
 (* every canonical dotted quad is an instance ... *)
 Theorem C11_quad_accepted : forall s : bytes, canonical_quad s = true <-> (exists a b c d : Z, 0 <= a < 256 /\ 0 <= b < 256 /\ 0 <= c < 256 /\ 0 <= d < 256 /\ s = quad a b c d).
@@ -146,6 +147,34 @@ Print Assumptions C11_email_found.
 Theorem C11_ip_context_local : forall pre t : list N, ip_context (pre ++ t) (blen pre) = ip_context pre (blen pre).
 Proof. exact ip_context_app. Qed.
 Print Assumptions C11_ip_context_local.
+
+(* domains under the regenerated TLD table, outside the documented false-positive shapes (as the boolean domain_fp_b), delimited as the look-behind / look-ahead require *)
+Theorem C11_domain_found : forall (pre : bytes) (labels : list bytes) (tld suf : bytes), labels_ok labels = true -> tld_ok tld = true -> mem (upper tld) Tables.TOP_LEVEL_DOMAINS = true -> let form := domain_form labels tld in 7 <= blen form -> domain_fp_b Tables.root_fpos Tables.tld_fpos form = false -> dom_pre_ok pre = true -> dom_stop suf = true -> (Datatypes.length pre + 2 * Datatypes.length form + Datatypes.length suf + 64 <= default_fuel)%nat -> let data := pre ++ form ++ suf in find_domains Tables.TOP_LEVEL_DOMAINS Tables.root_fpos Tables.tld_fpos data = Hang \/ (exists rest : list node, find_domains Tables.TOP_LEVEL_DOMAINS Tables.root_fpos Tables.tld_fpos data = Ok (Node (s2b "network.domain") form [] (blen pre) (blen pre + blen form) [] :: rest) /\ Forall (fun nd : node => blen pre + blen form <= n_st nd) rest).
+Proof. exact find_domains_roundtrip_table. Qed.
+Print Assumptions C11_domain_found.
+
+(* CreateObject( ... up to its balancing parenthesis, any letter case, any suffix *)
+Theorem C11_createobject_found : forall (nm : bytes) (pre : list N) (arg : bytes) (suf : list N), lower nm = s2b "createobject(" -> paren_balanced arg = true -> neutral RE_vba_CREATE_OBJECT_RE pre = true -> let form := nm ++ arg ++ [41%N] in let data := pre ++ form ++ suf in find_createobject data = Hang \/ (exists rest : list node, find_createobject data = Ok (Node (s2b "vba.function.createobject") form [] (blen pre) (blen pre + blen form) [] :: rest) /\ Forall (fun nd : node => blen pre + blen nm <= n_st nd) rest).
+Proof. exact find_createobject_roundtrip. Qed.
+Print Assumptions C11_createobject_found.
+
+Theorem C11_posix_path_found : forall (pre : list N) (dots : bytes) (segs : list bytes) (fname suf : bytes), path_dots dots = true -> segs <> [] -> forallb seg_ok segs = true -> fname_ok fname = true -> path_stop suf = true -> (2 * Datatypes.length (path_form dots segs fname) + 64 <= default_fuel)%nat -> neutral RE_path_PATH_RE pre = true -> let form := path_form dots segs fname in let data := pre ++ form ++ suf in find_path data = Hang \/ (exists rest : list node, find_path data = Ok (Node (s2b "path") form [] (blen pre) (blen pre + blen form) [] :: rest) /\ Forall (fun nd : node => blen pre + blen form <= n_st nd) rest).
+Proof. exact find_path_roundtrip. Qed.
+Print Assumptions C11_posix_path_found.
+
+(* http / https / ftp URLs with a registered-domain host and a path over the unreserved class: the text itself, unlabelled, with scheme / domain / path children *)
+Theorem C11_url_found : forall (pre : list N) (scheme : bytes) (labels : list bytes) (tld path suf : bytes), url_scheme_ok scheme -> labels_ok labels = true -> tld_ok tld = true -> mem (upper tld) Tables.TOP_LEVEL_DOMAINS = true -> let host := dotted labels ++ tld in (URL_HOST_MIN <= Datatypes.length host <= URL_HOST_MAX)%nat -> url_path_ok path = true -> url_stop suf = true -> let form := url_form scheme host path in neutral RE_network_URL_RE pre = true -> is_printable pre = true -> (Datatypes.length form + Datatypes.length (take_trail suf) + 100 <= default_fuel)%nat -> let data := pre ++ form ++ suf in find_urls Tables.TOP_LEVEL_DOMAINS data = Hang \/ (exists rest : list node, find_urls Tables.TOP_LEVEL_DOMAINS data = Ok (Node URL_TYPE form [] (blen pre) (blen pre + blen form) (url_simple_kids scheme host path) :: rest) /\ Forall (fun nd : node => blen pre + blen form <= n_st nd) rest).
+Proof. exact find_urls_roundtrip_simple_table. Qed.
+Print Assumptions C11_url_found.
+
+Theorem C11_url_query_fragment_found : forall (tlds : list bytes) (pre : list N) (scheme : bytes) (labels : list bytes) (tld path : bytes) (q f : option bytes) (suf : bytes), url_scheme_ok scheme -> labels_ok labels = true -> tld_ok tld = true -> In (upper tld) tlds -> let host := dotted labels ++ tld in (URL_HOST_MIN <= Datatypes.length host <= URL_HOST_MAX)%nat -> url_qf_ok path q f = true -> url_stop suf = true -> let form := url_form scheme host (url_rest path q f) in neutral RE_network_URL_RE pre = true -> url_ctx_ok pre form suf = true -> (Datatypes.length form + Datatypes.length (take_trail suf) + 100 <= default_fuel)%nat -> let data := pre ++ form ++ suf in find_urls tlds data = Hang \/ (exists rest : list node, find_urls tlds data = Ok (Node URL_TYPE form [] (blen pre) (blen pre + blen form) (url_qf_kids scheme host path q f) :: rest) /\ Forall (fun nd : node => blen pre + blen form <= n_st nd) rest).
+Proof. exact find_urls_roundtrip_query. Qed.
+Print Assumptions C11_url_query_fragment_found.
+
+(* drive paths X:\dir\...\file.ext: windows.path with its file-name child *)
+Theorem C11_windows_path_found : forall (is_domain : bytes -> bool) (pre : list N) (d : N) (segs : list bytes) (base ext suf : bytes), is_alpha_ascii d = true -> wsegs_ok segs = true -> wfile_ok base ext = true -> wpath_stop suf = true -> let form := wpath_form d segs (wfile base ext) in neutral RE_path_WINDOWS_PATH_RE pre = true -> (2 * Datatypes.length form + 100 <= default_fuel)%nat -> let data := pre ++ form ++ suf in find_windows_path is_domain data = Hang \/ (exists rest : list node, find_windows_path is_domain data = Ok (Node WINDOWS_PATH_TYPE form [] (blen pre) (blen pre + blen form) (wpath_kids form base ext) :: rest) /\ Forall (fun nd : node => blen pre + blen form <= n_st nd) rest).
+Proof. exact find_windows_path_roundtrip_drive. Qed.
+Print Assumptions C11_windows_path_found.
 
 Example C11_example :
   find_ips (L"zz 10.20.30.40 zz") = Ok [Node (L"network.ip") (L"10.20.30.40") [] 3 14 []]
